@@ -63,12 +63,25 @@ var (
 // Two different seeds with the same remainder modulo 2^31-1 give the same sequence (math/rand
 // documents it): a tree that seeds from 64 bits of entropy meets that birthday bound, and the
 // no-duplicate oracle, which holds draws to be distinct by construction, steps back for such a
-// run. The same seed used twice is not this case and stays judged.
+// run — as long as the run has seeded fewer than seedingsExcused generators: below that the
+// chance of the coincidence is under 2^-12 per run and no design can do better with math/rand;
+// a design that seeds tens of thousands of generators per run (one per batch, say) has made the
+// 31-bit seed space its own problem and stays judged. The same seed used twice is never excused.
+const seedingsExcused = 1024
+
 var (
 	seedGen     uint64
 	seedsSeen   map[int64]int64
-	SeedAliased bool
+	seedAliased bool
+	seedings    int
 )
+
+// SeedsAliased reports whether the run in progress has used two different seeds with the same
+// remainder. (State of an earlier run never answers for this one.)
+func SeedsAliased() bool {
+	sim := sched.Cur
+	return sim != nil && seedGen == sim.Gen && seedAliased && seedings < seedingsExcused
+}
 
 func noteSeed(raw int64) {
 	sim := sched.Cur
@@ -76,12 +89,13 @@ func noteSeed(raw int64) {
 		return
 	}
 	if seedGen != sim.Gen || seedsSeen == nil {
-		seedGen, seedsSeen, SeedAliased = sim.Gen, map[int64]int64{}, false
+		seedGen, seedsSeen, seedAliased, seedings = sim.Gen, map[int64]int64{}, false, 0
 	}
+	seedings++
 	r := reduceSeed(raw)
 	if prev, ok := seedsSeen[r]; ok {
 		if prev != raw {
-			SeedAliased = true
+			seedAliased = true
 		}
 		return
 	}
